@@ -43,6 +43,7 @@ var oracleProps = map[string]string{
 	"C03/op-panic":              "C03",
 	"C16/change-without-commit": "C16 C03",
 	"C06/index-disagrees":       "C06",
+	"C16/persisted-differs":     "C16 C06 C03",
 	"C06/check-failed":          "C06 C16",
 	"C06/stale-offset-accepted": "C06 C03",
 	"C07/duplicate-in-state":    "C07",
@@ -106,8 +107,9 @@ type version struct {
 }
 
 type harness struct {
-	stalls  bool     // this run injects client stalls
-	scratch []string // scratch tables created before the tables of the workload
+	carry   map[int]*lastRead // per client: a row read in its previous transaction
+	stalls  bool              // this run injects client stalls
+	scratch []string          // scratch tables created before the tables of the workload
 	s       *simrt.Sim
 	ri      *hkit.RunInfo
 	prop    string
@@ -176,7 +178,10 @@ type contents struct {
 // readContents scans every index of every table of the current state through a fresh
 // read transaction and checks the per-state invariants (C06, C07, C08, counts).
 func (h *harness) readContents() *contents {
-	rt := h.db.NewReadTran()
+	return h.readContentsOf(h.db.NewReadTran())
+}
+
+func (h *harness) readContentsOf(rt *db19.ReadTran) *contents {
 	c := &contents{primary: dbModel{}}
 	// every invariant is evaluated; of the broken ones the first that belongs to the property
 	// being checked is reported (a duplicate unique value also upsets the index comparison,
@@ -697,6 +702,7 @@ type lastRead struct {
 	table string
 	off   uint64
 	r     row
+	own   bool // the offset of a record this transaction wrote itself
 }
 
 func classify(e any) string {
@@ -757,6 +763,39 @@ func (h *harness) runTran(client int, tp tranPlan) {
 	t.v = &view{sm: h.sm, m: h.versions[sv].model.clone(), writes: writeSet{}}
 	h.txns = append(h.txns, t)
 	var last *lastRead
+	defer func() {
+		if last != nil && !last.own && client >= 0 {
+			h.carry[client] = last
+		}
+	}()
+	if c := h.carry[client]; c != nil && h.dynCoin(1, 3) {
+		// an offset kept from the previous transaction (a cursor that outlives it): if the
+		// row has been replaced or deleted since, a write through it must be refused even
+		// as the first thing this transaction does
+		delete(h.carry, client)
+		cur, ok := t.v.m[c.table][h.sm.pk(c.table, c.r)]
+		if !ok || cur.tok() != c.r.tok() {
+			res := try(func() {
+				if h.dynCoin(1, 2) {
+					ut.Delete(nil, c.table, c.off)
+				} else {
+					r2 := append(row(nil), c.r...)
+					r2[len(r2)-1] = val("stale")
+					ut.Update(nil, c.table, c.off, r2.rec())
+				}
+			})
+			t.ops = append(t.ops, fmt.Sprintf("write on %s through an offset of an earlier transaction -> %s", c.table, res))
+			h.ri.Count("probe.stale-offset-earlier-tran:"+firstWords(res), 1)
+			if res == resOK {
+				h.fail("C06/stale-offset-accepted", "", "T%d: a delete / update through the offset that a row of %s had in an earlier transaction was accepted although the row has been replaced or deleted since", t.id, c.table)
+				return
+			}
+			if res == resDead {
+				t.dead = true
+			}
+			t.stop = true
+		}
+	}
 	for _, o := range tp.ops {
 		if s.Over() {
 			return
@@ -781,6 +820,17 @@ func (h *harness) runTran(client int, tp tranPlan) {
 		t.status = tAborted
 		t.result = "abort:" + res
 		h.ri.Count("txn.aborted-explicitly", 1)
+		if h.dynCoin(1, 2) {
+			// the end of a transaction block completes the transaction even if the code in
+			// the block has rolled it back: that must fail, and publish nothing
+			h.maybeStall()
+			cres := ut.Complete()
+			t.ops = append(t.ops, "complete after abort -> "+cres)
+			h.ri.Count("txn.complete-after-abort", 1)
+			if cres == "" {
+				h.fail("C03/applied-but-failed", "C03/complete-after-abort-succeeded", "T%d was rolled back explicitly, yet the Complete that followed reported success", t.id)
+			}
+		}
 		return
 	}
 	t.ops = append(t.ops, "complete")
@@ -878,7 +928,7 @@ func (h *harness) doOp(t *txn, o op, last **lastRead) {
 		if rec != nil {
 			r := rowFromRec(rec.Record, len(tbl.Cols))
 			got = r.tok()
-			*last = &lastRead{o.table, rec.Off, r}
+			*last = &lastRead{table: o.table, off: rec.Off, r: r}
 		}
 		want := evalLookup(t.v.m, h.key, o.table, o.idx, key)
 		t.ops = append(t.ops, fmt.Sprintf("lookup %s %v = %s", o.table, o.probe[:len(o.probe)-1], tokStr(got)))
@@ -914,7 +964,7 @@ func (h *harness) doOp(t *txn, o op, last **lastRead) {
 				_, off := it.Cur()
 				r := rowFromRec(ut.GetRecord(off), len(tbl.Cols))
 				toks = append(toks, r.tok())
-				rows = append(rows, lastRead{o.table, off, r})
+				rows = append(rows, lastRead{table: o.table, off: off, r: r})
 			}
 		})
 		if res != resOK {
@@ -958,7 +1008,7 @@ func (h *harness) doOp(t *txn, o op, last **lastRead) {
 		h.compare(t, "update", o.table, note, want, res, dead)
 		if res == resOK {
 			staleOff := (*last).off
-			*last = &lastRead{o.table, newoff, nw}
+			*last = &lastRead{o.table, newoff, nw, true}
 			if newoff != staleOff && h.dynCoin(1, 5) && !h.s.Over() {
 				// probe: the offset the row had before the update is stale now; using it
 				// must be refused, not silently recorded against the wrong index entries
@@ -1113,7 +1163,7 @@ func (h *harness) compare(t *txn, what, table, note string, want []string, got s
 // the run
 
 func Run(s *simrt.Sim, mode string, ri *hkit.RunInfo) {
-	h := &harness{s: s, ri: ri, prop: mode, g: s.Tape.Stream("gen"), verOf: map[*db19.DbState]int{}, sch: map[string]*schema.Schema{}}
+	h := &harness{carry: map[int]*lastRead{}, s: s, ri: ri, prop: mode, g: s.Tape.Stream("gen"), verOf: map[*db19.DbState]int{}, sch: map[string]*schema.Schema{}}
 	g := h.g
 	s.Context = func() string { return h.history() }
 	// swarm knobs
@@ -1603,6 +1653,51 @@ func (h *harness) finish() {
 	} else if err != nil {
 		h.fail("C06/check-failed", "", "final db.Check (full): %v", err)
 		return
+	}
+	// what a persist writes must be what has been committed: persist, then read the newest
+	// persisted state back from the store and compare it with the final model
+	var pst *db19.DbState
+	res = try(func() { pst = h.db.Persist() })
+	if res != resOK {
+		h.fail("C03/op-panic", "", "Persist raised %s", res)
+		return
+	}
+	if pst != nil && !s.Over() {
+		ok := true
+		s.Inspect(func() {
+			h.observe()
+			rt := h.db.NewReadTran()
+			var t int64
+			if r := try(func() { t = rt.Asof(-1) }); r != resOK || t == 0 {
+				h.fail("C16/persisted-differs", "", "after Persist the newest persisted state cannot be read: %s (time %d)", r, t)
+				ok = false
+				return
+			}
+			if rt.VerifOff() != pst.Off {
+				h.ri.Count("persisted-check.skipped-newer-record", 1) // a further persist is in progress
+				return
+			}
+			var c *contents
+			if r := try(func() { c = h.readContentsOf(rt) }); r != resOK {
+				h.fail("C16/persisted-differs", "", "reading the persisted state raised %s", r)
+				ok = false
+				return
+			}
+			if c == nil {
+				ok = false
+				return
+			}
+			fin := h.versions[len(h.versions)-1].model
+			if !c.primary.equal(fin) {
+				h.fail("C16/persisted-differs", "", "the state written by the final Persist differs from the committed contents: %s", c.primary.diff(fin))
+				ok = false
+				return
+			}
+			h.ri.Count("persisted-check.ok", 1)
+		})
+		if !ok || s.Over() {
+			return
+		}
 	}
 	res = try(func() { h.db.Close() })
 	if res != resOK {
